@@ -3,7 +3,7 @@ import Casket.Proofs.Load
 C08 — A failed load or reload leaves nothing behind.
 
 Statements only; helper lemmas live in Casket/Proofs/Load.lean.  `step` is the model of one attempt
-(casket.Start, a reload through the SIGUSR1 handler, `casket -validate`, casket.Stop) on the process state
+(casket.Start, a reload through the SIGUSR1 handler or a direct `Instance.Restart`, `casket -validate`, casket.Stop) on the process state
 (running sites, listening descriptors per port, registered event hooks, the process-wide directive table) in an environment `busy` (ports in use
 by other processes); it performs exactly the cleanup of the repaired error paths (Model/Load.lean) and is tied
 to the Go code by the correspondence stream `c08.seq`, which runs the real http server type on loopback.
@@ -25,6 +25,31 @@ theorem C08_failed_load_is_identity (busy : List Nat) (s : PState) (op : Op)
 another when a third port turns out to be in use -/
 example : (step [3] ⟨true, [⟨1, "A"⟩], fun p => if p = 1 then 1 else 0, 2, 0⟩
     (.load ⟨[⟨1, "B"⟩, ⟨2, "B"⟩, ⟨3, "B"⟩], 1, .none⟩)).2 = .err := by decide
+
+/-- … the same for the API-level reload (`Instance.Restart` called directly, no handler around it that would purge and
+restore the registry) of a configuration that registers THREE hooks next to the two that are registered, and fails in a
+directive after `on`, in a startup callback, or at a port in use: the cleanup takes all three out again -/
+example : (step [3] ⟨true, [⟨1, "A"⟩], fun p => if p = 1 then 1 else 0, 2, 0⟩
+    (.restart ⟨[⟨1, "B"⟩], 3, .setupLate⟩)).2 = .err := by decide
+example : (step [3] ⟨true, [⟨1, "A"⟩], fun p => if p = 1 then 1 else 0, 2, 0⟩
+    (.restart ⟨[⟨1, "B"⟩], 3, .startup⟩)).2 = .err := by decide
+example : (step [3] ⟨true, [⟨1, "A"⟩], fun p => if p = 1 then 1 else 0, 2, 0⟩
+    (.restart ⟨[⟨1, "B"⟩, ⟨3, "B"⟩], 3, .none⟩)).2 = .err := by decide
+
+/-- The registered event hooks after a failed attempt are the registered hooks before it, however many hooks the failing
+configuration registers (`c.hooks` is universally quantified: 1, 2, 3, …), at whatever stage it fails, through whatever
+way of loading — `casket.Start`, the SIGUSR1 handler, a direct `Instance.Restart`, `-validate`. -/
+theorem C08_failed_attempt_keeps_hooks (busy : List Nat) (s : PState) (op : Op)
+    (h : (step busy s op).2 = .err) : (step busy s op).1.hooks = s.hooks := by
+  rw [step_err_identity h]
+
+/-- The SIGUSR1 handler IS: purge the registry, `Instance.Restart`, put the old registry back if that failed. -/
+theorem C08_reload_is_purge_restart_restore (busy : List Nat) (s : PState) (c : Cfg) :
+    reload busy s c =
+      (if (restart busy { s with hooks := 0 } c).2 = .err
+        then ({ (restart busy { s with hooks := 0 } c).1 with hooks := s.hooks }, .err)
+        else restart busy { s with hooks := 0 } c) :=
+  reload_eq_restart busy s c
 
 /-- … hence what is observable (listening sockets, hooks, answers of the sites) is unchanged too. -/
 theorem C08_failed_load_observably_nothing (busy : List Nat) (s : PState) (op : Op)
@@ -64,6 +89,27 @@ theorem C08_valid_config_loads_after_any_history (busy : List Nat) (ops : List O
 
 example : validFor [3] ⟨[⟨1, "B"⟩, ⟨2, "B"⟩], 0, .none⟩ = true := by decide
 
+/-- … and so does it through the API-level reload, where it keeps the hooks that were registered and adds its own. -/
+theorem C08_valid_config_restarts_after_any_history (busy : List Nat) (ops : List Op) (c : Cfg)
+    (hw : ∀ op ∈ ops, WF op) (hc : c.ports.Nodup) (hv : validFor busy c = true) :
+    let s := stateAfter busy PState.init ops
+    (step busy s (.restart c)).2 = .ok ∧ (step busy s (.restart c)).1.sites = c.sites ∧
+    (step busy s (.restart c)).1.hooks = s.hooks + c.hooks ∧
+    ∀ p, (step busy s (.restart c)).1.fds p = if p ∈ c.ports then 1 else 0 := by
+  intro s
+  have hs : Clean busy s := clean_after busy ops PState.init (clean_init busy) hw
+  have hok := restart_valid_ok hs hc hv
+  have hc' := clean_step hs (.restart c) hc
+  have hboth : (step busy s (.restart c)).1.sites = c.sites ∧ (step busy s (.restart c)).1.hooks = s.hooks + c.hooks := by
+    cases hrun : s.running
+    · simp only [step, hrun] at hok ⊢
+      exact ⟨(start_ok hs hrun hok hc).2.1, (start_ok hs hrun hok hc).2.2.1⟩
+    · simp only [step, hrun, if_true] at hok ⊢
+      exact ⟨(restart_ok hs hok hc).2.1, (restart_ok hs hok hc).2.2.1⟩
+  refine ⟨hok, hboth.1, hboth.2, ?_⟩
+  intro p
+  rw [hc'.fds p, hboth.1]; rfl
+
 /-- No listener is ever leaked: after any history the process holds exactly one listening descriptor per port of the
 running instance and none otherwise. -/
 theorem C08_no_leaked_listeners (busy : List Nat) (ops : List Op) (hw : ∀ op ∈ ops, WF op) (p : Nat) :
@@ -90,6 +136,15 @@ example : stepLaw [3] Obs.fresh (.load ⟨[⟨1, "A"⟩, ⟨3, "A"⟩], 1, .none
 
 /-- a failed attempt that leaves an event hook, -/
 example : stepLaw [3] Obs.fresh (.load ⟨[⟨1, "H"⟩], 1, .setupLate⟩) (some .err)
+    { l1 := 0, l2 := 0, hooks := 1, dv := 0, s1 := "-", s2 := "-" } = some "hooks-changed" := by decide
+
+/-- a failed attempt of a configuration with three hooks that leaves ONE of them (a cleanup that stops at the first hook
+it removes), also through the API-level reload and the validation, -/
+example : stepLaw [3] Obs.fresh (.load ⟨[⟨1, "H"⟩], 3, .setupLate⟩) (some .err)
+    { l1 := 0, l2 := 0, hooks := 1, dv := 0, s1 := "-", s2 := "-" } = some "hooks-changed" := by decide
+example : stepLaw [3] { Obs.fresh with l1 := 1, hooks := 2, s1 := "A" } (.restart ⟨[⟨1, "H"⟩], 2, .startup⟩) (some .err)
+    { l1 := 1, l2 := 0, hooks := 3, dv := 0, s1 := "A", s2 := "-" } = some "hooks-changed" := by decide
+example : stepLaw [3] Obs.fresh (.validate ⟨[⟨1, "H"⟩], 2, .setupLate⟩) (some .err)
     { l1 := 0, l2 := 0, hooks := 1, dv := 0, s1 := "-", s2 := "-" } = some "hooks-changed" := by decide
 
 /-- a valid configuration that is rejected because of what happened before, and an attempt that hangs. -/
